@@ -36,6 +36,8 @@ type Opts struct {
 	Unions bool
 	// Multipart lets a share of the body-carrying methods be MultipartRequest() endpoints in Runtime mode (gen/multipart.go).
 	Multipart bool
+	// MultipartFew divides that share by three (checks that cannot decide multipart exchanges: C14).
+	MultipartFew bool
 }
 
 type g struct {
